@@ -2,4 +2,5 @@ let () =
   match Array.to_list Sys.argv with
   | _ :: "c18" :: rest -> C18.run rest
   | _ :: "c12" :: rest -> C12.run rest
+  | _ :: ("c10" | "c11") :: rest -> C10.run rest
   | _ -> prerr_endline "usage: model <property> ..."; exit 2
